@@ -4,6 +4,7 @@ import hashlib
 import importlib
 import json
 import os
+import re
 import sys
 import time
 import traceback
@@ -145,8 +146,15 @@ def main(argv=None):
         if key in seen:
             continue
         seen.add(key)
+        # the feature configuration a construct was compiled under is not part of its identity: the same source
+        # construct reported under [DEF]/[MIN]/[ORD] is the listed finding, not a new one
+        base = re.sub(r"\[(MAX|DEF|MIN|ORD)\]", "", key)
         if (prop, key) in known:
             kf.append((key, known[(prop, key)], w))
+        elif (prop, base) in known:
+            if base not in seen:
+                seen.add(base)
+                kf.append((base, known[(prop, base)], w))
         else:
             new.append((key, r, i, d, w))
     for key, e, w in kf:
